@@ -451,15 +451,10 @@ Definition case_ok (c : kcase) : bool :=
 
 def cases(tier, rng):
     L = _cases0(tier, rng)
-    # stuffing-heavy payloads (runs of 0x00 / 0xFF grow when stuffed) at low percentages against every explicit
-    # layer request near its capacity: the compact 64-data-word limit and the fit test must see the STUFFED length
-    for req in ([-4, -3, -2, -1, 1, 2, 4] if tier == "quick" else list(range(-4, 0)) + list(range(1, 12))):
-        for pct in ((0, 2, 15) if tier == "quick" else (0, 1, 2, 5, 10, 15, 23)):
-            for b in (0x00, 0xFF):
-                for n in ((50, 56, 61, 64) if tier == "quick" else range(44, 70, 2)):
-                    L.append("az %d %d %s" % (pct, req, (bytes([b]) * n).hex()))
-            for n in ((88, 92, 95) if tier == "quick" else range(84, 100)):
-                L.append("az %d %d %s" % (pct, req, ("A !" * 40)[:n].encode().hex()))
+    # stuffing-heavy payloads against explicit layer requests and on the automatic path (lib/gaps.py)
+    import gaps
+    for a in gaps.aztec_stuffing(rng, tier):
+        L.append("az " + a)
     return L
 
 
